@@ -553,7 +553,7 @@ def gate_targets(nd: dict) -> list[str]:
     return t
 
 
-EXC_KINDS = ["plain", "plain", "noargs", "typeerror_kw", "keyerror", "valueerror", "falsy"]
+EXC_KINDS = ["plain", "plain", "noargs", "typeerror_kw", "keyerror", "valueerror", "falsy", "badstr"]
 
 
 def gen_sibling_wrappers(rng: random.Random) -> dict:
